@@ -438,7 +438,21 @@ func (mpt *MerklePatriciaTrie) delete(key Key, prefix, path Path) (Node, Key, er
 		return nil, nil, err
 	}
 	if len(path) == 0 {
-		return mpt.deleteAfterPathTraversal(node)
+		// the path ends at this node: there is something to delete only if a
+		// value is stored exactly here
+		switch nodeImpl := node.(type) {
+		case *FullNode:
+			if !nodeImpl.HasValue() {
+				return nil, nil, ErrValueNotPresent
+			}
+		case *LeafNode:
+			if len(nodeImpl.Path) != 0 {
+				return nil, nil, ErrValueNotPresent
+			}
+		case *ExtensionNode:
+			return nil, nil, ErrValueNotPresent
+		}
+		return mpt.deleteAfterPathTraversal(node, prefix)
 	}
 	return mpt.deleteAtNode(key, node, prefix, path)
 }
@@ -629,51 +643,7 @@ func (mpt *MerklePatriciaTrie) deleteAtNode(key Key, node Node, prefix, path Pat
 					tempNode := nodeImpl.Clone().(*FullNode)
 					// clear the child being deleted
 					tempNode.PutChild(path[0], nil)
-					var otherChildKey []byte
-					var oidx byte
-					for idx, pe := range PathElements {
-						child := tempNode.GetChild(pe)
-						if child != nil {
-							oidx = byte(idx)
-							otherChildKey = child
-							break
-						}
-					}
-					ochild, err := mpt.getNode(otherChildKey)
-					if err != nil {
-						return nil, nil, err
-					}
-					npath := []byte{nodeImpl.indexToByte(oidx)}
-					var nnode Node
-					switch onodeImpl := ochild.(type) {
-					case *FullNode:
-						nnode = NewExtensionNode(npath, otherChildKey)
-					case *LeafNode:
-						if onodeImpl.Path != nil {
-							npath = append(npath, onodeImpl.Path...)
-						}
-						lnode := ochild.Clone().(*LeafNode)
-						lnode.SetOrigin(mpt.Version)
-						lnode.Path = npath
-						lnode.Prefix = concat(prefix)
-						nnode = lnode
-						if err := mpt.deleteNode(ochild); err != nil {
-							return nil, nil, err
-						}
-					case *ExtensionNode:
-						if onodeImpl.Path != nil {
-							npath = append(npath, onodeImpl.Path...)
-						}
-						enode := ochild.Clone().(*ExtensionNode)
-						enode.Path = npath
-						nnode = enode
-						if err := mpt.deleteNode(ochild); err != nil {
-							return nil, nil, err
-						}
-					default:
-						panic(fmt.Sprintf("unknown node type: %T %v %T", ochild, ochild, mpt.db))
-					}
-					return mpt.insertNode(node, nnode)
+					return mpt.liftSingleChild(node, tempNode, prefix)
 				}
 			}
 		}
@@ -682,7 +652,7 @@ func (mpt *MerklePatriciaTrie) deleteAtNode(key Key, node Node, prefix, path Pat
 		return mpt.insertNode(node, nnode)
 	case *LeafNode:
 		if bytes.Equal(path, nodeImpl.Path) {
-			return mpt.deleteAfterPathTraversal(node)
+			return mpt.deleteAfterPathTraversal(node, prefix)
 		}
 
 		return nil, nil, ErrValueNotPresent // There is nothing to delete
@@ -765,9 +735,65 @@ func (mpt *MerklePatriciaTrie) insertAfterPathTraversal(value MPTSerializable, n
 	}
 }
 
-func (mpt *MerklePatriciaTrie) deleteAfterPathTraversal(node Node) (Node, Key, error) {
+// liftSingleChild replaces node, a full node left with exactly one child and no
+// value (given as fnode), with that child lifted up one level.
+func (mpt *MerklePatriciaTrie) liftSingleChild(node Node, fnode *FullNode, prefix Path) (Node, Key, error) {
+	var otherChildKey []byte
+	var oidx byte
+	for idx, pe := range PathElements {
+		child := fnode.GetChild(pe)
+		if child != nil {
+			oidx = byte(idx)
+			otherChildKey = child
+			break
+		}
+	}
+	ochild, err := mpt.getNode(otherChildKey)
+	if err != nil {
+		return nil, nil, err
+	}
+	npath := []byte{fnode.indexToByte(oidx)}
+	var nnode Node
+	switch onodeImpl := ochild.(type) {
+	case *FullNode:
+		nnode = NewExtensionNode(npath, otherChildKey)
+	case *LeafNode:
+		if onodeImpl.Path != nil {
+			npath = append(npath, onodeImpl.Path...)
+		}
+		lnode := ochild.Clone().(*LeafNode)
+		lnode.SetOrigin(mpt.Version)
+		lnode.Path = npath
+		lnode.Prefix = concat(prefix)
+		nnode = lnode
+		if err := mpt.deleteNode(ochild); err != nil {
+			return nil, nil, err
+		}
+	case *ExtensionNode:
+		if onodeImpl.Path != nil {
+			npath = append(npath, onodeImpl.Path...)
+		}
+		enode := ochild.Clone().(*ExtensionNode)
+		enode.Path = npath
+		nnode = enode
+		if err := mpt.deleteNode(ochild); err != nil {
+			return nil, nil, err
+		}
+	default:
+		panic(fmt.Sprintf("unknown node type: %T %v %T", ochild, ochild, mpt.db))
+	}
+	return mpt.insertNode(node, nnode)
+}
+
+func (mpt *MerklePatriciaTrie) deleteAfterPathTraversal(node Node, prefix Path) (Node, Key, error) {
 	switch nodeImpl := node.(type) {
 	case *FullNode:
+		if nodeImpl.GetNumChildren() == 1 {
+			// a full node with a single child and no value anymore should lift up the child
+			nnode := nodeImpl.Clone().(*FullNode)
+			nnode.SetValue(nil)
+			return mpt.liftSingleChild(node, nnode, prefix)
+		}
 		// The value of the branch needs to be updated
 		nnode := nodeImpl.Clone().(*FullNode)
 		nnode.SetValue(nil)
